@@ -4,6 +4,7 @@ package main
 
 import (
 	"fmt"
+	"math/big"
 	"os"
 	"go/ast"
 	"go/token"
@@ -86,6 +87,11 @@ func (c *VC) ghostBuiltin(st *State, name string, call *ast.CallExpr) []*Term {
 		a := c.evalCond(st, call.Args[0])
 		b := c.evalCond(st, call.Args[1])
 		return []*Term{mkEq(a, b)}
+	case "offsetIn":
+		// index of sub's first element within whole (meaningful when they share a backing array)
+		a := c.eval(st, call.Args[0])
+		b := c.eval(st, call.Args[1])
+		return []*Term{c.binop(token.SUB, mkField(a, "sl_off"), mkField(b, "sl_off"), it)}
 	case "viewOf":
 		// b's current content is exactly s[p : p+len(b)] (b was obtained by converting s and re-slicing)
 		b := c.eval(st, call.Args[0])
@@ -179,6 +185,49 @@ func (c *VC) ghostBuiltin(st *State, name string, call *ast.CallExpr) []*Term {
 			return []*Term{mkForall([]*Term{bv}, mkImplies(rng, body))}
 		}
 		return []*Term{mkExists([]*Term{bv}, mkAnd(rng, body))}
+	case "forallIn", "existsIn":
+		// quantification over the elements s[lo:hi], bound by the absolute position in the backing
+		// array so that ANY read of that array instantiates the fact (robust e-matching)
+		sv := c.eval(st, call.Args[0])
+		lo := c.eval(st, call.Args[1])
+		hi := c.eval(st, call.Args[2])
+		lit, ok := ast.Unparen(call.Args[3]).(*ast.FuncLit)
+		var ret *ast.ReturnStmt
+		if ok && len(lit.Body.List) == 1 {
+			ret, _ = lit.Body.List[0].(*ast.ReturnStmt)
+		}
+		if ret == nil || len(ret.Results) != 1 {
+			c.unsupportedf(call.Pos(), "%s needs a function literal with a single return", name)
+			return []*Term{c.fresh("q", sortBool)}
+		}
+		tv, _ := c.cur().view.typeOf(lit)
+		sig := tv.Type.(*types.Signature)
+		pk, pe := sig.Params().At(0), sig.Params().At(1)
+		st0 := c.typeOf(call.Args[0])
+		elemT := st0.Underlying().(*types.Slice).Elem()
+		_, h := c.sliceHeap(st, c.sortOf(elemT))
+		row := c.sel(h, mkField(sv, "sl_base"))
+		j := c.boundVar("j", c.idxSort())
+		off := mkField(sv, "sl_off")
+		if c.mode == ModeInt {
+			c.varBounds[j.Op] = interval{bigInt(0), new(big.Int).Mul(pow2(maxLenBits), bigInt(2))}
+		}
+		sub := st.clone()
+		sub.env[pk] = c.binop(token.SUB, j, off, it)
+		sub.env[pe] = mkSelect(row, j)
+		saveNN := c.noName
+		c.noName = true
+		c.quantDepth++
+		nf := len(c.facts)
+		body := c.evalCond(sub, ret.Results[0])
+		c.quantDepth--
+		c.noName = saveNN
+		c.facts = c.facts[:nf]
+		rng := mkAnd(c.cmp(token.LEQ, c.binop(token.ADD, off, lo, it), j, it), c.cmp(token.LSS, j, c.binop(token.ADD, off, hi, it), it))
+		if name == "forallIn" {
+			return []*Term{mkForall([]*Term{j}, mkImplies(rng, body), mkSelect(row, j))}
+		}
+		return []*Term{mkExists([]*Term{j}, mkAnd(rng, body))}
 	case "modifiesTail", "modifiesElems", "modifiesPtr", "modifiesAll":
 		if run == nil || run.phase != 1 {
 			return nil
